@@ -577,14 +577,37 @@ func buildGateway(t *sim.Tape) []gwExchange {
 		func() gateway.Object { return new(gateway.RPCRelayV2BlockOutline) },
 		func() gateway.Object { return new(gateway.RPCRelayV2TransactionSet) },
 	}
-	if t.Chance(1, 40) {
+	if t.Chance(1, 25) {
 		// a block of exactly the maximum weight, relayed in full: the heaviest
 		// outline the consensus rules allow must fit the relay's own limit
 		var cs consensus.State
 		txn := types.V2Transaction{ArbitraryData: []byte{1}}
 		base := cs.V2TransactionWeight(txn)
+		asSet := t.Chance(1, 2)
+		if asSet {
+			// (the proofs of what a transaction spends weigh nothing: a set that can be
+			// mined whole may be a good deal longer than it is heavy)
+			pol := types.PolicyPublicKey(types.PublicKey{1})
+			for j := 0; j < t.Range(1, 300); j++ {
+				proof := make([]types.Hash256, t.Range(0, 60))
+				for k := range proof {
+					proof[k] = types.Hash256{byte(j), byte(k), 1}
+				}
+				txn.SiacoinInputs = append(txn.SiacoinInputs, types.V2SiacoinInput{
+					Parent:          types.SiacoinElement{ID: types.SiacoinOutputID{byte(j), byte(j >> 8), 7}, StateElement: types.StateElement{LeafIndex: uint64(j) * 1000003, MerkleProof: proof}, SiacoinOutput: types.SiacoinOutput{Value: types.Siacoins(1), Address: pol.Address()}},
+					SatisfiedPolicy: types.SatisfiedPolicy{Policy: pol, Signatures: []types.Signature{{byte(j)}}},
+				})
+			}
+			base = cs.V2TransactionWeight(txn)
+		}
 		txn.ArbitraryData = sim.HashBytes("heavy", 1, 2, int(cs.MaxBlockWeight()-base)+1)
-		if cs.V2TransactionWeight(txn) == cs.MaxBlockWeight() {
+		if asSet && cs.V2TransactionWeight(txn) == cs.MaxBlockWeight() {
+			req := &gateway.RPCRelayV2TransactionSet{Index: types.ChainIndex{Height: 5, ID: types.BlockID{5}}, Transactions: []types.V2Transaction{txn}}
+			ex := gwExchange{name: "RPCRelayV2TransactionSet(set of maximum weight)", obj: req, resp: new(gateway.RPCRelayV2TransactionSet), mustFit: true}
+			if guardPanic(func() { ex.reqEnc, ex.respEnc = gwReqBytes(req), gwRespBytes(ex.resp) }) == "" {
+				return []gwExchange{ex}
+			}
+		} else if cs.V2TransactionWeight(txn) == cs.MaxBlockWeight() {
 			blk := types.Block{Timestamp: time.Unix(1e9, 0), MinerPayouts: []types.SiacoinOutput{{Value: types.Siacoins(1)}}, V2: &types.V2BlockData{Height: 5, Transactions: []types.V2Transaction{txn}}}
 			req := &gateway.RPCRelayV2BlockOutline{Block: gateway.OutlineBlock(blk, nil, nil)}
 			ex := gwExchange{name: "RPCRelayV2BlockOutline(block of maximum weight)", obj: req, resp: new(gateway.RPCRelayV2BlockOutline), mustFit: true}
@@ -810,6 +833,9 @@ func runGateway(s *Session, exs []gwExchange, mismatch string, addrLen [2]int) {
 				e.violate("C19", "gateway-object-altered", fmt.Sprintf("exchange %d: %s request decoded to a different object than the one written", i, ex.name))
 			}
 			e.inc("rpc.read")
+			if ex.mustFit {
+				e.inc("gateway.heaviest-read." + strings.SplitN(ex.name, "(", 2)[0])
+			}
 			if err := st.WriteResponse(ex.resp); err != nil {
 				e.logf("ex %d write response failed", i)
 				return
